@@ -117,6 +117,12 @@ def run_and_validate(chk, behaviours, tag):
                 ok = not str(ev.get("res")).startswith("err")
                 key = f"step_{what}_{'ok' if ok else 'err'}"
                 stats[key] = stats.get(key, 0) + 1
+                if "injected fault" in str(ev.get("res")):
+                    # (a write of the CAs' object store / key store was
+                    # made to fail: the command is rejected by its pre-save
+                    # listener after it was applied to a copy)
+                    stats["steps_with_failing_presave_write"] = stats.get(
+                        "steps_with_failing_presave_write", 0) + 1
                 steps.append([what, ok])
             elif e == "obs":
                 kind = ev["e"].split("/")[0]
@@ -204,7 +210,8 @@ def require_exercised(chk):
               "step_publisher_add_ok", "step_publisher_remove_ok",
               "step_delete_ca_ok", "step_update_snapshots_ok",
               "step_pump_ok", "obs_cas", "obs_ta_proxy", "obs_ta_signer",
-              "obs_pubd", "obs_pubd_objects", "obs_snapshot_plus_later"]
+              "obs_pubd", "obs_pubd_objects", "obs_snapshot_plus_later",
+              "steps_with_failing_presave_write"]
     missing = [k for k in needed if stats.get(k, 0) == 0]
     if missing:
         raise vlib.ToolError(f"never exercised on the real code: {missing}")
